@@ -16,7 +16,8 @@ algorithms.
 import inspect
 
 from ufl.algorithms.map_integrands import map_integrands
-from ufl.classes import Variable, all_ufl_classes
+from ufl.classes import Variable
+from ufl.core.expr import Expr
 from ufl.core.ufl_type import UFLType
 
 
@@ -46,7 +47,10 @@ class Transformer:
         # Analyse class properties and cache handler data the
         # first time this is run for a particular class
         cache_data = Transformer._handlers_cache.get(type(self))
-        if not cache_data:
+        # Use the live type registry: Expr types may be registered after
+        # import, and a cached table is stale if that happened since
+        all_ufl_classes = Expr._ufl_all_classes_
+        if not cache_data or len(cache_data) != len(all_ufl_classes):
             cache_data = [None] * len(all_ufl_classes)
             # For all UFL classes
             for classobject in all_ufl_classes:
